@@ -195,6 +195,15 @@ func parserCorpus(tier string, seed uint64, f func(stream, s string)) {
 		rng = NewRng(mix(seed, strHash("malformed"), uint64(i)))
 		f("malformed", malformed())
 	}
+	// flat chains of 33 to 140 terms (one level of the tree per term)
+	for _, n := range []int{33, 40, 65, 70, 129, 140} {
+		var terms []string
+		for i := 0; i < n; i++ {
+			terms = append(terms, fmt.Sprintf("f%d == %d", i, i))
+		}
+		f("long-chains", strings.Join(terms, " and "))
+		f("long-chains", strings.Join(terms, " or "))
+	}
 	// values written as selectors (the literal text of such a value is the selector's dotted rendering), selectors that begin like a keyword
 	for _, sel := range []string{`bar["a.b"]`, `tags["x-y"]`, `a["b c"].d`, `a[""]`, "a[`r.s`]", `a.b["c"]`, `a["é"]`, `a["b"]["c.d"].e`, `a.0["x.y"]`, `a["b/c"]`, `a["~"]`, `a["0"]`, `a.b.c`, `a["b"]`, `x["\""]`, `x["\\"]`, `x["\n"]`,
 		"notes", "note.x", "notBefore", "nothing", "android.os", "order", "orbit", "anyone", "allow", "inner", "island", "asx", "emptyx", "matchesx", "containsx", "nota", "inn", "iss", "andy", "ore"} {
@@ -260,7 +269,9 @@ func runC15(r *Run) {
 				grammar.Parse("", []byte("a == 1 and b == 2"), grammar.MaxExpressions(uint64(5+nth%700)))
 				grammar.Parse("", []byte("a == \"\xff\""), grammar.AllowInvalidUTF8(true))
 				grammar.Parse("x", []byte("a =="), grammar.MaxExpressions(1000), grammar.Recover(true))
-				bexpr.CreateEvaluator("a == 1", bexpr.WithMaxExpressions(1000))
+				if _, err := bexpr.CreateEvaluator("a == 1", bexpr.WithMaxExpressions(1000)); err != nil {
+					r.Violate("create-evaluator-verdict", "budgeted-between|"+s, map[string]string{"input": "a == 1", "before": s}, "a budget of 1000 steps does not suffice for `a == 1` after other parses: "+err.Error())
+				}
 			}()
 		}
 		o := parseObs([]byte(s), 0)
